@@ -567,7 +567,7 @@ pub fn finish_request(rq: Request, id: usize, fin: &Finish, ob: &mut ReqObs) {
             let mut res = "writer:ok".to_string();
             // which method of `Write` the application uses is encoded in the number of leading
             // EMPTY parts: 0 = write_all, 1 = write_vectored (two slices per call), 2 = plain
-            // write() with at most 7 bytes per call
+            // write() with at most 64 bytes per call
             let style = parts.iter().take_while(|p| p.is_empty()).count() % 3;
             for p in parts {
                 let r = match style {
@@ -576,7 +576,7 @@ pub fn finish_request(rq: Request, id: usize, fin: &Finish, ob: &mut ReqObs) {
                         let mut off = 0;
                         let mut r = Ok(());
                         while off < p.len() {
-                            match w.write(&p[off..(off + 7).min(p.len())]) {
+                            match w.write(&p[off..(off + 64).min(p.len())]) {
                                 Ok(0) => {
                                     r = Err(std::io::Error::new(std::io::ErrorKind::WriteZero, "write returned 0"));
                                     break;
